@@ -19,8 +19,8 @@ Inductive case :=
 | CSizes.
 
 (* decoders: 1..25 the built-in with that encoding mask (23 DataValue, 24 Variant);
-   30+k read_array of built-in k; 70.. the transport headers *)
-Inductive decoder := DTy (t : ty) | DMsgHeader | DHello | DAck | DErr | DChunkHeader | DChunk.
+   30+k read_array of built-in k; 70.. the transport headers; 76 the framing layer (TcpCodec::decode) *)
+Inductive decoder := DTy (t : ty) | DMsgHeader | DHello | DAck | DErr | DChunkHeader | DChunk | DFrame.
 Definition decoder_of (dk : Z) : decoder :=
   if dk =? 23 then DTy TDV
   else if dk =? 24 then DTy TVar
@@ -34,8 +34,39 @@ Definition decoder_of (dk : Z) : decoder :=
   else if dk =? 73 then DErr
   else if dk =? 74 then DChunkHeader
   else if dk =? 75 then DChunk
+  else if dk =? 76 then DFrame
   else if 100 <=? dk then DTy (nth (Z.to_nat (dk - 100)) all_structs (TS 1))   (* generated structures *)
   else DTy (TS 1).
+
+(* TcpCodec::decode (the framing layer) on a receive buffer that holds the input.  [1] stands for
+   Ok(None): more bytes are needed and nothing is consumed -- in particular nothing may be reserved
+   for a frame whose declared size the limits do not allow; 0 :: print for a frame that was split
+   off and decoded.  The size check precedes the completeness check. *)
+Definition dec_frame (o : opts) : M (list Z) := fun bs =>
+  if zlen bs <=? 8 then (Ok ([1], bs), st0)
+  else
+    match dec_msg_header (firstn 8 bs) with
+    | (Ok (h, _), s) =>
+        let mt := nth 0 h 0 in
+        let size := nth 1 h 0 in
+        if (0 <? max_msg o) && (max_msg o <? size) then (Err ELimit, s)
+        else if size <=? zlen bs then
+          let n := Z.to_nat size in
+          let sub : M (list Z) :=
+            if mt =? 1 then dec_hello o
+            else if mt =? 2 then dec_ack
+            else if mt =? 4 then dec_errmsg o
+            else if mt =? 3 then (data <- dec_chunk o ;; ret (zlen data :: data))
+            else fail EInvalid in
+          match sub (firstn n bs) with
+          | (Ok (p, _), s2) => (Ok (0 :: p, skipn n bs), st_max s s2)
+          | (Err e, s2) => (Err e, st_max s s2)
+          | (Panic k, s2) => (Panic k, st_max s s2)
+          end
+        else (Ok ([1], bs), s)
+    | (Err e, s) => (Err e, s)
+    | (Panic k, s) => (Panic k, s)
+    end.
 
 (* every decoder as M (list Z): the print of the decoded value *)
 Definition decode (dk : Z) (o : opts) : M (list Z) :=
@@ -47,6 +78,7 @@ Definition decode (dk : Z) (o : opts) : M (list Z) :=
   | DErr => dec_errmsg o
   | DChunkHeader => dec_chunk_header
   | DChunk => data <- dec_chunk o ;; ret (zlen data :: data)
+  | DFrame => dec_frame o
   end.
 
 Definition ALLOC_FLOOR : Z := 1024.
